@@ -213,6 +213,9 @@ func (e *Exec) feasible(c *Term) bool {
 	if c.isFalse() {
 		return false
 	}
+	if slowMs > 0 {
+		e.sol.ctx = e.where()
+	}
 	r, _ := e.sol.check(e.pc, c, nil)
 	if r == "unknown" {
 		e.fail("solver unknown on feasibility query")
